@@ -16,7 +16,7 @@ RULE = ("files: members of the conforming/violating families, stacked variants (
 
 LEXICAL = ["'a\\q\n", "'ab'", "''", "\"abc", "'a", "'a\n", "0b1221", "0129", "12ab", "1.2.3", "1e", "@", "$", "`", "\\ ", "é", "→x", "/* é */ @",
            "\"é\" 'é'", "0x1g", "1.5q", "0b102 0b12", "'\\q'", "\"\\q\"", "'\\x'", "x = 'abc' + 0b12;", "\t'a\n\t0b12 @\n", "0x1E+n", "0xE-1", "0x1e+0b12", "0xfE-'ab'", "0x1g 0xE+1", "/* unterminated", "\"\\x\" 0x1E-2",
-           "0x.p1", "1.5e+ 0xE+2", "0b12 0xE-1 @"]
+           "0x.p1", "1.5e+ 0xE+2", "0b12 0xE-1 @", "/* page\fbreak\v\n** " + "c" * 84 + "\n*/", "/* a\u2028b\x85c\n** " + "c" * 90 + " */"]
 
 
 def nlines(text):
@@ -68,7 +68,7 @@ def report_case(d):
         else:
             base = family.member_of(d, violating=0.0, ftype="c")
             lines = base.text.split("\n")
-            ins = d.int(12, max(12, len(lines) - 1))
+            ins = d.int(12, max(12, len(lines) - 1)) if d.bool(0.7) else len(lines) - 1    # (now and then at the very end of the file)
             frag = d.choice(LEXICAL)
             if d.bool(0.4):
                 frag += " " + d.choice(LEXICAL)
